@@ -568,6 +568,46 @@ theorem invKept_step (h : Heap) (s t : St) (hi : InvKept h s) (st : Step h s t) 
   | enter p fl => exact congr _ rfl
   | silent _ _ _ hc _ _ _ => exact congr t hc
 
+/-- a component entry differs from the loaded one only if a reference of that very collection was given that name: the
+nine collections are separate tables (the model's `addCore` looks up and stores under the cell's own collection; the
+code: obligation `add_uses_own_kind_map`) -/
+def InvOwn (h : Heap) (s : St) : Prop :=
+  ∀ k nm, lookup s k nm = lookup (initSt h) k nm ∨
+    ∃ ev ∈ s.log, (cellOf h ev.cell).k = k ∧ ev.name? = some nm
+
+theorem invOwn_step (h : Heap) (s t : St) (hi : InvOwn h s) (st : Step h s t) : InvOwn h t := by
+  have weaken : ∀ (t : St), t.comps = s.comps → (∀ ev ∈ s.log, ev ∈ t.log) → InvOwn h t := by
+    intro t hc hl k nm
+    rcases hi k nm with h0 | ⟨ev, hev, hk, hn⟩
+    · left; rw [← h0]; unfold lookup; rw [hc]
+    · exact Or.inr ⟨ev, hl ev hev, hk, hn⟩
+  cases st with
+  | add c pext b _ hr =>
+    rcases addCore_cases h s c pext b t hr with ⟨_, _, ht⟩ | ⟨_, nm, ev, rw⟩
+    · subst ht; exact weaken _ rfl (fun ev hev => List.mem_cons_of_mem _ hev)
+    · have hlog : ∀ e ∈ s.log, e ∈ t.log := fun e he => by rw [rw.log]; exact List.mem_cons_of_mem _ he
+      have hset : ∀ (hcomps : t.comps = setCompL s.comps (cellOf h c).k nm (.fresh (cellOf h c).val)), InvOwn h t := by
+        intro hcomps k nm'
+        by_cases hkn : k = (cellOf h c).k ∧ nm' = nm
+        · right
+          refine ⟨ev, by rw [rw.log]; exact List.mem_cons_self, ?_, ?_⟩
+          · rw [rw.evc]; exact hkn.1.symm
+          · rw [rw.evn, hkn.2]
+        · rw [lookup_set_other s t _ _ _ _ _ hcomps hkn]
+          rcases hi k nm' with h0 | ⟨e, he, hk, hn⟩
+          · exact Or.inl h0
+          · exact Or.inr ⟨e, hlog e he, hk, hn⟩
+      rcases rw.comps with ⟨_, _, hcomps⟩ | ⟨e, _, _, hcomps⟩
+      · exact hset hcomps
+      · rcases hcomps with hkeep | ⟨_, hover⟩
+        · exact weaken t hkeep hlog
+        · exact hset hover
+  | clear c => exact weaken _ rfl (fun _ he => he)
+  | enter p fl => exact weaken _ rfl (fun _ he => he)
+  | silent _ _ _ hc hl _ _ => exact weaken t hc (fun e he => by rw [hl]; exact he)
+
+theorem invOwn_init (h : Heap) : InvOwn h (initSt h) := fun _ _ => Or.inl rfl
+
 /-! ### reading the final state -/
 
 theorem resolve_mkRef (h : Heap) (s : St) (n : Nat) (k nm : Str) (own : Int) (hk : noSlash k) (hn : noSlash nm) :
